@@ -107,7 +107,7 @@ def run(prop, tier, seed, replay=None):
     if corr_err:
         broken.append(dict(kind='correspondence', what='case evaluation', msg=corr_err[:800]))
     for dgr in disagreements[:50]:
-        broken.append(dict(kind='correspondence', what=dgr['meta'].get('component', 'step'), msg=json.dumps(dgr['meta'], default=str)[:600]))
+        broken.append(dict(kind='correspondence', what=dgr['meta'].get('component', 'step'), msg=json.dumps(dgr['meta'], default=str)[:5000], case=dgr['case']))
 
     # ---- verdict ---------------------------------------------------------------------------------
     rc = 0
